@@ -16,7 +16,8 @@ histories over a richer alphabet of operations on random widget trees) is execut
   the reference in Python and differences are reported as DIVERGENCE only (they show render side effects that a cache
   hit skips, which is outside the property statement), never as a verdict.
 
-TLC (CanvasCacheTrace.tla) compares content, cursor, rows() and the later re-reading of every canvas that was handed out.
+TLC (CanvasCacheTrace.tla) compares content, cursor, rows(), the answers of size-dependent queries (cursor coordinates, preferred
+column, ends visible) and the later re-reading of every canvas that was handed out.
 """
 from __future__ import annotations
 
@@ -46,6 +47,10 @@ ATTRMAPS = [{None: "a1"}, {None: "a2"}, {"a1": "a2", None: "a1"}, {}]
 ALIGNS = ["left", "center", "right"]
 WRAPS = ["space", "any", "clip", "ellipsis"]
 VALIGNS = ["top", "middle", "bottom"]
+# layout families (long list boxes, Columns that do not all fit): every line / column is recognisable in the rendering
+LINES = [f"line {i:02d}" for i in range(40)]
+NAV_KEYS = ["down", "up", "page down", "page up", "end", "home", "down", "up"]
+COL_KEYS = ["left", "right", "left", "right", "home", "end", "tab", "a", "up", "down"]
 FLOW_LEAVES = ["Text", "Text", "Markup", "Edit", "Edit", "CheckBox", "Button", "ProgressBar", "Divider", "IntEdit", "Icon"]
 
 _ATTR = {}
@@ -117,10 +122,12 @@ class Probe:
         self.alias = 0
         self.scroll = 0
         self.follow = 0
+        self.lb_clamp = 0     # a ListBox canvas was made at a height <= the stored offset of the focus (the view clamps it)
+        self.cols_cut = 0     # a Columns canvas was made at a width where not every column is shown (the focus decides which)
         self.orig = None
 
     def reset(self):
-        self.alias = self.scroll = self.follow = 0
+        self.alias = self.scroll = self.follow = self.lb_clamp = self.cols_cut = 0
 
     def _scan(self, canv):
         stack = [canv]
@@ -154,6 +161,12 @@ class Probe:
                 probe.shift[canvas] = bool(getattr(wi[0], "_shift_view_to_cursor", False))
             if wi and Scrollable and isinstance(wi[0], Scrollable):
                 probe.trim[canvas] = (wi[0]._trim_top, probe.gen.get(wi[0], 0))
+            if wi and wcls is probe.u.ListBox and len(wi[1]) == 2 and wi[1][1] and getattr(wi[0], "offset_rows", 0) >= wi[1][1]:
+                probe.lb_clamp += 1
+            if wi and wcls is probe.u.Columns and wi[0]._cache_maxcol == wi[1][0]:
+                cw = wi[0]._cache_column_widths
+                if len(cw) < len(wi[0].contents) or 0 in cw:
+                    probe.cols_cut += 1
             return o_store(wcls, canvas)
 
         def fetch(cls, widget, wcls, size, focus):
@@ -373,6 +386,10 @@ class World:
         B = lambda x: self.build(x, t)  # noqa: E731
         if k == "Text":
             w = u.Text(TEXTS[d[1]], align=d[2], wrap=d[3])
+        elif k == "Line":
+            w = u.Text(LINES[d[1] % len(LINES)] + ("\nmore" if len(d) > 2 and d[2] else ""))
+        elif k == "LEdit":
+            w = u.Edit(f"e{d[1]}:", "ab" * (1 + d[1] % 3))
         elif k == "Markup":
             m = MARKUPS[d[1]]
             w = u.Text(copy.deepcopy(m))
@@ -401,9 +418,12 @@ class World:
             for i, x in enumerate(d[1]):
                 given = d[3][i % len(d[3])]
                 items.append((given, B(x)) if given else ("weight", 1, B(x)))
-            w = u.Columns(items, dividechars=d[2])
+            w = u.Columns(items, dividechars=d[2], **({"min_width": d[4]} if len(d) > 4 and d[4] else {}),
+                          **({"focus_column": d[5]} if len(d) > 5 and d[5] is not None else {}))
         elif k == "ColumnsB":
-            w = u.Columns([("weight", 1, B(x)) for x in d[1]], dividechars=d[2])
+            gv = d[3] if len(d) > 3 else [0]
+            w = u.Columns([((gv[i % len(gv)], B(x)) if gv[i % len(gv)] else ("weight", 1, B(x))) for i, x in enumerate(d[1])], dividechars=d[2],
+                          **({"min_width": d[4]} if len(d) > 4 and d[4] else {}))
         elif k == "GridFlow":
             w = u.GridFlow([B(x) for x in d[1]], d[2], d[3], d[4], d[5])
         elif k == "ListBox":
@@ -433,7 +453,7 @@ class World:
         else:
             raise AssertionError(k)
         self.nodes[t][nid] = w
-        self.meta[nid] = (k, sizing_of(d))
+        self.meta[nid] = ({"Line": "Text", "LEdit": "Edit"}.get(k, k), sizing_of(d))
         self._last_id = nid
         return w
 
@@ -494,6 +514,7 @@ class World:
             c_exc = type(ex).__name__
         hits, fetches = CC.hits - h0, CC.fetches - f0
         alias, scroll, follow = self.probe.alias, self.probe.scroll, self.probe.follow
+        lb_clamp, cols_cut = self.probe.lb_clamp, self.probe.cols_cut
         self._scroll_positions(by_op=False)
         if canv is not None:
             try:
@@ -509,7 +530,8 @@ class World:
         e = {"t": "render", "nid": nid, "kind": self.meta[nid][0], "size": list(size), "focus": int(focus), "key": self._key(nid, size, focus),
              "c_exc": c_exc, "c_txt": c[0], "c_att": c[1], "c_cur": c[2], "f_exc": f_exc, "f_txt": f[0], "f_att": f[1], "f_cur": f[2],
              "hit": int(fetches >= 1 and hits >= 1 and fetches == 1), "subhits": hits, "fetches": fetches, "keep": kept,
-             "opn": self.opn, "twin_same": int((tw, tw_exc) == (f, f_exc)), "edit_focus_alias": int(alias > 0), "scroll_moved_by_render": int(scroll > 0), "scroll_follow_pending": int(follow > 0)}
+             "opn": self.opn, "twin_same": int((tw, tw_exc) == (f, f_exc)), "edit_focus_alias": int(alias > 0), "scroll_moved_by_render": int(scroll > 0), "scroll_follow_pending": int(follow > 0),
+             "lb_clamp": int(lb_clamp > 0), "cols_cut": int(cols_cut > 0)}
         if extra:
             e.update(extra)
         if kept:
@@ -539,6 +561,35 @@ class World:
             self.twin_diff_at.append(len(self.ops))
         self.ev.append({"t": "rows", "nid": nid, "kind": self.meta[nid][0], "size": list(size), "focus": int(focus), "c_exc": c_exc, "c_rows": c_rows,
                         "f_exc": f_exc, "f_rows": f_rows, "hit": int(hits > 0)})
+
+    def do_query(self, nid, size, focus, what):
+        """A size-dependent question that changes nothing (get_cursor_coords / get_pref_col / ListBox.ends_visible), answered by the
+        live tree (sub-widget rows may come from cached canvases) and by the same tree with the caches emptied first."""
+        def ask(w):
+            try:
+                if what == "ends":
+                    v = w.ends_visible(tuple(size), bool(focus))
+                    return [int("top" in v), int("bottom" in v)], ""
+                v = getattr(w, "get_cursor_coords" if what == "cursor" else "get_pref_col")(tuple(size))
+                if v is None:
+                    return [], ""
+                return ([int(x) for x in v] if isinstance(v, tuple) else [int(v) if isinstance(v, int) else -1]), ""
+            except Exception as ex:  # noqa: BLE001
+                return [], type(ex).__name__
+        w = self.nodes[0][nid]
+        if not hasattr(w, "ends_visible" if what == "ends" else ("get_cursor_coords" if what == "cursor" else "get_pref_col")):
+            return
+        with empty_cache(self.CC):
+            try:
+                f_val, f_exc = ask(clone(self.u, w))
+            except Exception as ex:  # noqa: BLE001
+                f_val, f_exc = [], "clone:" + type(ex).__name__
+            ask(self.nodes[1][nid])
+        h0 = self.CC.hits
+        c_val, c_exc = ask(w)
+        self._scroll_positions(by_op=False)
+        self.ev.append({"t": "query", "what": what, "nid": nid, "kind": self.meta[nid][0], "size": list(size), "focus": int(focus), "c_val": c_val, "c_exc": c_exc,
+                        "f_val": f_val, "f_exc": f_exc, "hit": int(self.CC.hits > h0)})
 
     def do_check(self):
         now = []
@@ -577,6 +628,9 @@ class World:
             return
         if n == "rows":
             self.do_rows(op[1], op[2], op[3])
+            return
+        if n == "query":
+            self.do_query(op[1], op[2], op[3], op[4])
             return
         if n == "drop":
             if self.held:
@@ -886,7 +940,7 @@ class TreeRefused(Exception):
 BUILD_ERRORS = (TreeRefused,)
 
 
-def run_history(desc, sizes, ops=None, rng=None, n=0, driver="random"):
+def run_history(desc, sizes, ops=None, rng=None, n=0, driver="random", gen=None):
     """Execute a history (given ops, or n operations generated online from rng) and return the trace."""
     was = gc.isenabled()
     gc.disable()            # the cyclic collector runs only where the history says so ("gc") and at the end
@@ -900,7 +954,9 @@ def run_history(desc, sizes, ops=None, rng=None, n=0, driver="random"):
             if ops is None:
                 w.apply(["render", 0, w.sizes[0], 1, 1])
                 for _ in range(n):
-                    w.apply(w.gen_op(rng))
+                    o = gen(w, rng) if gen else w.gen_op(rng)
+                    for op in (o if o and isinstance(o[0], list) else [o]):      # a family may answer with a burst of operations
+                        w.apply(op)
                 for s in w.sizes:   # closing renders at the base sizes: whatever the history left stale shows here
                     w.apply(["render", 0, s, 1, 0])
                 w.apply(["check"])
@@ -1043,6 +1099,177 @@ def random_history(rng):
 
 
 # ------------------------------------------------------------------------------------------------
+# layout families: widgets whose rendering depends on stored layout state that size-dependent calls work with
+#   * a list box much longer than its view, shown at two or three HEIGHTS (two panes / a resize and back): the stored
+#     scroll position (offset_rows / inset_fraction, set by set_focus, set_focus_valign, keys, mouse) is resolved per size;
+#   * Columns whose given / weighted columns do not all fit at some of the WIDTHS: the focus column decides which are
+#     shown and the column widths are remembered per width (_cache_maxcol / _cache_column_widths).
+# Histories interleave renders (canvases held), rows(), cursor / ends_visible queries and key presses at the different
+# sizes with the public calls that move the focus or the scroll position.
+# ------------------------------------------------------------------------------------------------
+def _lb_item(rng, i):
+    r = rng.random()
+    if r < 0.5:
+        return ["Line", i, int(rng.random() < 0.12)]
+    if r < 0.8:
+        return ["LEdit", i]
+    return ["CheckBox", rng.randrange(len(LABELS)), False] if r < 0.9 else ["Button", rng.randrange(len(LABELS))]
+
+
+def gen_layout_listbox(rng):
+    n = rng.randint(7, 26)
+    lb = ["ListBox", [_lb_item(rng, i) for i in range(n)], rng.choice(["focus", "focus", "simple"])]
+    wrap = rng.choice([None, None, None, "Frame", "LineBoxB", "PaddingB", "AttrMapB", "PileB", "ColumnsB", "PlaceholderB"])
+    extra = {"Frame": 1, "LineBoxB": 2, "PileB": 1}.get(wrap, 0)
+    if wrap == "Frame":
+        d = ["Frame", lb, ["Line", 30], None]
+    elif wrap == "LineBoxB":
+        d = ["LineBoxB", lb, "t"]
+    elif wrap == "PaddingB":
+        d = ["PaddingB", lb, "left", 1, 0]
+    elif wrap == "AttrMapB":
+        d = ["AttrMapB", lb, 0, 1]
+    elif wrap == "PileB":
+        d = ["PileB", [["Line", 31], lb]]
+    elif wrap == "ColumnsB":
+        d = ["ColumnsB", [lb, ["SolidFill", "."]], 1, [0, 3]]
+    elif wrap == "PlaceholderB":
+        d = ["PlaceholderB", lb]
+    else:
+        d = lb
+    cols = rng.randint(9, 18)
+    tall = rng.randint(5, 12)
+    hs = [tall, rng.randint(1, max(1, min(4, tall - 2)))]
+    if rng.random() < 0.4:
+        hs.append(rng.randint(2, tall))
+    sizes = [[cols, h + extra] for h in hs]
+    if rng.random() < 0.2:
+        sizes.append([cols + 3, tall + extra])
+    return d, sizes
+
+
+def op_layout_listbox(w, rng):
+    lbs = [i for i in w.attached() if w.meta[i][0] == "ListBox"]
+    if not lbs:
+        return w.gen_op(rng)
+    lb = lbs[0]
+    n = len(w.nodes[0][lb].body)
+    r = rng.random()
+    if r < 0.08:    # every pane repainted (the same list box shown at each of the sizes), frames kept
+        f = int(rng.random() < 0.85)
+        return [["render", 0, s, f, int(len(w.held) < 8)] for s in rng.sample(w.sizes, len(w.sizes))]
+    if r < 0.30:
+        return ["render", 0, rng.choice(w.sizes), int(rng.random() < 0.85), int(len(w.held) < 8 and rng.random() < 0.7)]
+    if r < 0.35:
+        return ["render", lb, w.size_for(rng, lb), int(rng.random() < 0.8), int(len(w.held) < 6 and rng.random() < 0.5)]
+    if r < 0.49 and n:
+        return ["lb_focus", lb, rng.randrange(n), rng.choice(["", "", "above", "below"])]
+    if r < 0.57:
+        return ["lb_valign", lb, rng.choice(VALIGNS)]
+    if r < 0.71:
+        return ["key", 0, rng.choice(w.sizes), rng.choice(NAV_KEYS)]
+    if r < 0.75:
+        s = rng.choice(w.sizes)
+        return ["mouse", 0, s, rng.choice([1, 4, 5]), rng.randrange(s[0]), rng.randrange(s[1])]
+    if r < 0.80:
+        return ["query", 0, rng.choice(w.sizes), 1, "cursor"] if rng.random() < 0.6 else ["query", lb, w.size_for(rng, lb), 1, "ends"]
+    if r < 0.85:
+        return ["drop", rng.randrange(8)] if w.held else ["gc"]
+    if r < 0.87:
+        return ["gc"]
+    if r < 0.90 and n:
+        return ["focus_position", lb, rng.randrange(n)]
+    if r < 0.94 and n:
+        c = rng.random()
+        if c < 0.4:
+            return ["w_insert", lb, rng.randint(0, n), ["Line", 32 + rng.randrange(8)]]
+        return ["w_delete", lb, rng.randrange(n)] if c < 0.7 else ["w_assign", lb, rng.randrange(n), ["Line", 32 + rng.randrange(8), 1]]
+    return w.gen_op(rng)
+
+
+def gen_layout_columns(rng):
+    n = rng.randint(3, 5)
+    div = rng.choice([0, 1])
+    minw = rng.choice([1, 4, 6])
+    box = rng.random() < 0.25
+    givens = [rng.choice([0, 4, 5, 6, 8, 10]) if rng.random() < 0.8 else 0 for _ in range(n)]
+    need = sum(g or minw for g in givens) + div * (n - 1)
+    if box:
+        kids = [["Filler", ["LEdit", i] if rng.random() < 0.7 else ["Line", i], "top"] for i in range(n)]
+        cols = ["ColumnsB", kids, div, givens, minw]
+    else:
+        kids = [(["LEdit", i] if rng.random() < 0.6 else (["Line", i] if rng.random() < 0.6 else ["CheckBox", 1 + i % 3, False])) for i in range(n)]
+        cols = ["Columns", kids, div, givens, minw, rng.choice([None, None, 0, n - 1])]
+    if box:
+        wrap = rng.choice([None, None, "LineBoxB", "AttrMapB", "Frame"])
+        d = {"LineBoxB": ["LineBoxB", cols, "t"], "AttrMapB": ["AttrMapB", cols, 0, 1], "Frame": ["Frame", cols, ["Line", 30], None]}.get(wrap, cols)
+    else:
+        wrap = rng.choice([None, None, None, "Pile", "LineBox", "Padding", "AttrMap", "Filler", "ListBox"])
+        d = {"Pile": ["Pile", [["Line", 30], cols, ["LEdit", 9]]], "LineBox": ["LineBox", cols, "t"], "Padding": ["Padding", cols, "left", 1, 0, None],
+             "AttrMap": ["AttrMap", cols, 0, 1], "Filler": ["Filler", cols, "top"], "ListBox": ["ListBox", [["Line", 30], cols, ["LEdit", 9]], "focus"]}.get(wrap, cols)
+    extra = {"LineBox": 2, "LineBoxB": 2, "Padding": 1}.get(wrap, 0)
+    lo = max(3, need // 2)
+    ws = [rng.randint(lo, max(lo, need - 1)), rng.randint(need, need + 6) if rng.random() < 0.7 else rng.randint(lo, max(lo, need - 1))]
+    if rng.random() < 0.4:
+        ws.append(rng.randint(lo, need + 3))
+    if sizing_of(d) == "box":
+        h = rng.randint(2, 5)
+        sizes = [[x + extra, h + ({"LineBoxB": 2, "Frame": 1}.get(wrap, 0))] for x in ws]
+    else:
+        sizes = [[x + extra] for x in ws]
+    return d, sizes
+
+
+def op_layout_columns(w, rng):
+    cs = [i for i in w.attached() if w.meta[i][0] in ("Columns", "ColumnsB")]
+    if not cs:
+        return w.gen_op(rng)
+    c = cs[0]
+    n = len(w.nodes[0][c].contents)
+    r = rng.random()
+    flow = w.root_sizing == "flow"
+    if r < 0.06:
+        f = int(rng.random() < 0.85)
+        return [["render", 0, s, f, int(len(w.held) < 8)] for s in rng.sample(w.sizes, len(w.sizes))]
+    if r < 0.32:
+        return ["render", 0, rng.choice(w.sizes), int(rng.random() < 0.85), int(len(w.held) < 6 and rng.random() < 0.7)]
+    if r < 0.38:
+        if flow:
+            return ["rows", 0, rng.choice(w.sizes), int(rng.random() < 0.7)]
+        return ["render", 0, rng.choice(w.sizes), 0, 0]
+    if r < 0.43:
+        return ["render", c, w.size_for(rng, c), int(rng.random() < 0.8), int(len(w.held) < 6 and rng.random() < 0.5)]
+    if r < 0.60 and n:
+        return ["focus_position", c, rng.randrange(n)]
+    if r < 0.72:
+        return ["key", 0, rng.choice(w.sizes), rng.choice(COL_KEYS)]
+    if r < 0.76:
+        s = rng.choice(w.sizes)
+        return ["mouse", 0, s, 1, rng.randrange(s[0]), rng.randrange(s[1] if len(s) > 1 else 2)]
+    if r < 0.80:
+        return ["query", 0, rng.choice(w.sizes), 1, rng.choice(["cursor", "cursor", "pref_col"])]
+    if r < 0.85:
+        return ["drop", rng.randrange(8)] if w.held else ["gc"]
+    if r < 0.87:
+        return ["gc"]
+    if r < 0.91 and n and w.meta[c][0] == "Columns":
+        return ["c_options", c, rng.randrange(n), rng.choice([0, 3, 6, 9])]
+    return w.gen_op(rng)
+
+
+def layout_history(rng, which):
+    gen_d, gen_o, name = ((gen_layout_listbox, op_layout_listbox, "layout-listbox") if which == 0 else (gen_layout_columns, op_layout_columns, "layout-columns"))
+    for _ in range(20):
+        desc, sizes = gen_d(rng)
+        try:
+            return run_history(desc, sizes, rng=rng, n=rng.randint(14, 30), driver=name, gen=gen_o)
+        except BUILD_ERRORS:
+            continue
+    raise AssertionError("layout family: no constructible tree")
+
+
+
+# ------------------------------------------------------------------------------------------------
 # spec -> code: behaviours of CanvasCache.tla on concrete realisations of the model tree R -> {A, I -> {B, C}}
 # ------------------------------------------------------------------------------------------------
 def T(tag, d):
@@ -1171,18 +1398,23 @@ def model_history(real, beh):
 
 
 # ------------------------------------------------------------------------------------------------
-MC_CFG = """CONSTANTS Sizes = {{{sizes}}} MaxVer = {maxver} MaxHeld = {maxheld} NoCache = {nocache} IgnoreFocus = {ign}
+MC_CFG = """CONSTANTS Sizes = {{{sizes}}} MaxVer = {maxver} MaxHeld = {maxheld} NoCache = {nocache} IgnoreFocus = {ign} Layout = {layout} Frozen = {frozen}
 Variant = "{variant}" MaxOps = {maxops}
 SPECIFICATION {spec}
 {invs}
 CHECK_DEADLOCK FALSE
 """
-INVS = ["NoStaleFetch", "NoStale", "ChangeVisibleInv", "CacheSane", "DepsRegistered", "StoredOnlyOverCached", "OnlyLive"]
-VARIANTS = ["no_cascade", "no_deps", "cleanup_drops_deps", "store_ignores_uncached", "mutator_forgets_invalidate"]
+INVS = ["NoStaleFetch", "NoStale", "ChangeVisibleInv", "CacheSane", "DepsRegistered", "StoredOnlyOverCached", "OnlyLive", "LayoutSane"]
+VARIANTS = ["no_cascade", "no_deps", "cleanup_drops_deps", "store_ignores_uncached", "mutator_forgets_invalidate",
+            # layout state (widget "I" keeps a stored scroll offset and a layout remembered per size):
+            "query_moves_layout_state",             # a sized call writes the clamped offset back, no _invalidate()  (class of ListBox seeds)
+            "layout_cache_survives_invalidate"]     # _invalidate() keeps the remembered layout (class of Columns seeds)
+LAYOUT_VARIANTS = {"query_moves_layout_state", "layout_cache_survives_invalidate"}
+LAY = '{"I"}'
 
 
-def cfg(variant="as_coded", sizes="1, 2", maxver=1, maxheld=1, nocache="{}", ign='{"A"}', maxops=0, invs=INVS, spec="Spec"):
-    return MC_CFG.format(sizes=sizes, maxver=maxver, maxheld=maxheld, nocache=nocache, ign=ign, variant=variant, maxops=maxops, spec=spec,
+def cfg(variant="as_coded", sizes="1, 2", maxver=1, maxheld=1, nocache="{}", ign='{"A"}', maxops=0, invs=INVS, spec="Spec", layout="{}", frozen="{}"):
+    return MC_CFG.format(sizes=sizes, maxver=maxver, maxheld=maxheld, nocache=nocache, ign=ign, variant=variant, maxops=maxops, spec=spec, layout=layout, frozen=frozen,
                          invs="\n".join("INVARIANT " + i for i in invs))
 
 
@@ -1211,7 +1443,29 @@ def _coverage(chk, traces):
     nontriv = set()
     for tr in traces:
         last = {}
-        for e in tr["ev"]:
+        seen_at = {}          # key -> index of the last render event of that key
+        clamped, focus_ops, sized = [], [], []      # (event index, size) of clamped list-box renders / focus-moving operations / any sized call
+        for ei, e in enumerate(tr["ev"]):
+            if e["t"] in ("render", "rows", "query"):
+                sized.append((ei, tuple(e["size"])))
+            if e["t"] == "op" and e["name"] in ("focus_position", "key", "mouse", "set_focus_path"):
+                focus_ops.append(ei)
+            if e["t"] == "render":
+                k0, sz = e["key"], tuple(e["size"])
+                if e.get("lb_clamp"):
+                    add("layout.listbox_rendered_with_offset_beyond_view")
+                    clamped.append((ei, sz))
+                if e.get("cols_cut"):
+                    add("layout.columns_rendered_not_all_fit")
+                if k0 in seen_at:
+                    since = seen_at[k0]
+                    if (e["hit"] or e["subhits"]) and any(i > since and z != sz for i, z in clamped):
+                        # a canvas cached before answers after the same list box was laid out at a height that clamps its stored offset
+                        add("layout.cached_answer_after_clamped_listbox_render_at_other_size")
+                    if e.get("cols_cut") and any(i > since for i in focus_ops) and any(i > since and z != sz for i, z in sized):
+                        # cut-off Columns rendered again at a width after a focus move and calls at another width in between
+                        add("layout.cut_columns_rerendered_after_focus_move_and_other_width")
+                seen_at[k0] = ei
             if e["t"] == "render":
                 add("render")
                 add("render.hit" if e["hit"] else ("render.miss_with_subhits" if e["subhits"] else "render.miss"))
@@ -1241,6 +1495,10 @@ def _coverage(chk, traces):
             elif e["t"] == "rows":
                 add("rows")
                 add("rows.from_cache" if e["hit"] else "rows.computed")
+            elif e["t"] == "query":
+                add("query." + e["what"])
+                if e["hit"]:
+                    add("query.partly_from_cache")
             elif e["t"] == "op":
                 add("op." + e["name"] + (".raised" if e["exc"] else ""))
             elif e["t"] == "drop":
@@ -1264,17 +1522,24 @@ def run(chk):
     # ---- MC: the design model as coded (must hold) and the broken variants (must be refuted) -------
     mc_jobs = []
     if quick:
+        # widget I with layout state (stored offset resolved per size, layout remembered per size); quick: only I (focus) and B change
         main_cfgs = [("MC_CanvasCache_as_coded", cfg(maxver=1, maxheld=1)),
+                     ("MC_CanvasCache_as_coded_layout_state", cfg(maxver=1, maxheld=1, layout=LAY, frozen='{"A", "C", "R"}')),
                      ("MC_CanvasCache_as_coded_uncacheable_leaf", cfg(maxver=1, maxheld=1, sizes="1", nocache='{"C"}'))]
     else:
         main_cfgs = [("MC_CanvasCache_as_coded", cfg(maxver=1, maxheld=2)),
                      ("MC_CanvasCache_as_coded_ver2", cfg(maxver=2, maxheld=1)),
                      ("MC_CanvasCache_as_coded_uncacheable_leaf", cfg(maxver=2, maxheld=1, nocache='{"C"}')),
-                     ("MC_CanvasCache_as_coded_no_ignore_focus", cfg(maxver=1, maxheld=1, ign="{}"))]
+                     ("MC_CanvasCache_as_coded_no_ignore_focus", cfg(maxver=1, maxheld=1, ign="{}")),
+                     ("MC_CanvasCache_as_coded_layout_state", cfg(maxver=1, maxheld=1, layout=LAY)),
+                     ("MC_CanvasCache_as_coded_layout_state_ver2", cfg(maxver=2, maxheld=1, layout=LAY, frozen='{"A", "C", "R"}')),
+                     # accepted alternative design (what Scrollable does): the resolved offset is written back AND _invalidate() is called
+                     ("MC_CanvasCache_clamp_stored_and_invalidated", cfg("clamp_stored_and_invalidated", maxver=1, maxheld=1, layout=LAY))]
     for name, c in main_cfgs:
         mc_jobs.append((name, None, pool_main.submit(tlc.mc, "CanvasCache", c, workers=6, timeout=1100, heap="6g")))
     for v in VARIANTS:
-        c = cfg(v, maxver=1, maxheld=1, nocache='{"C"}' if v == "store_ignores_uncached" else "{}", invs=["NoStaleFetch", "NoStale"])
+        c = cfg(v, maxver=1, maxheld=1, nocache='{"C"}' if v == "store_ignores_uncached" else "{}", invs=["NoStaleFetch", "NoStale"],
+                layout=LAY if v in LAYOUT_VARIANTS else "{}")
         mc_jobs.append((f"MC_CanvasCache_variant_{v}", v, pool_var.submit(tlc.mc, "CanvasCache", c, workers=1, timeout=600, heap="2g")))
 
     traces = []
@@ -1282,6 +1547,11 @@ def run(chk):
     n_rand = 800 if quick else 12000
     for _ in range(n_rand):
         traces.append(random_history(rng))
+    # ---- layout families: long list boxes at several heights, Columns that do not all fit at several widths ----
+    n_lay = 200 if quick else 4000
+    for i in range(n_lay):
+        traces.append(layout_history(rng, i % 2))
+    chk.cov["layout_histories"] = n_lay
     directed = directed_histories()
     traces += directed
     chk.cov["directed_histories"] = len(directed)
@@ -1334,7 +1604,10 @@ def run(chk):
         chk.count(k, v)
     cc = chk.cov["clause_counts"]
     for need in ("render.hit", "render.miss_with_subhits", "rerender.fresh_changed_since_last", "rerender.changed_and_partly_from_cache",
-                 "rerender.same_and_hit", "rows.from_cache", "render.with_cursor", "check.held_canvases", "drop"):
+                 "rerender.same_and_hit", "rows.from_cache", "render.with_cursor", "check.held_canvases", "drop",
+                 "layout.listbox_rendered_with_offset_beyond_view", "layout.columns_rendered_not_all_fit",
+                 "layout.cached_answer_after_clamped_listbox_render_at_other_size", "layout.cut_columns_rerendered_after_focus_move_and_other_width",
+                 "query.cursor", "query.ends", "query.partly_from_cache"):
         if not cc.get(need):
             chk.vacuity.append("driver." + need)
     hit_rate = (cc.get("render.hit", 0) + cc.get("render.miss_with_subhits", 0)) / max(1, cc.get("render", 1))
@@ -1357,11 +1630,14 @@ def run(chk):
     chk.cov["rule"] = ("histories of render / rows / hold / drop / gc interleaved with public mutators, keys, mouse presses, contents and list-walker edits, "
                        "focus changes, attr maps, placeholder swaps, titles, scroll positions on random trees (depth <= 3) of Pile/Columns/GridFlow/ListBox/Frame/"
                        "Filler/Padding/AttrMap/WidgetPlaceholder/LineBox/BoxAdapter/Scrollable/ScrollBar/Overlay around Text/Edit/IntEdit/CheckBox/Button/"
-                       "ProgressBar/Divider/SelectableIcon, and TLC-simulated behaviours of CanvasCache.tla on five realisations of the model tree; "
+                       "ProgressBar/Divider/SelectableIcon; layout families: list boxes of 7..26 recognisable items shown at 2..4 sizes (heights 1..12) and Columns of 3..5 "
+                       "given / weighted columns that do not all fit at some of 2..3 widths, bare or inside one decoration / container, with renders (held), rows, "
+                       "cursor / pref_col / ends_visible queries and keys at every size interleaved with set_focus, set_focus_valign, focus_position, mouse, "
+                       "walker and options edits; and TLC-simulated behaviours of CanvasCache.tla on five realisations of the model tree; "
                        "non-trivial = distinct (tree, size, focus, fresh content) re-rendered after the content had changed")
     chk.cov["exhaustive"] = True     # the design model within its constants; histories on the real code are sampled
-    chk.cov["bounds"] = {"model": "tree R->{A, I->{B,C}}, sizes {1,2} x focus, MaxVer/MaxHeld per run (see tlc_runs), all reachable states",
-                         "random_histories": n_rand, "ops_per_history": "8..22 + closing renders", "tlc_behaviours": len(behs), "cols": "4..26", "rows": "1..8"}
+    chk.cov["bounds"] = {"model": "tree R->{A, I->{B,C}}, I with layout state (stored offset 0..1 clamped to size-1, one remembered layout), sizes {1,2} x focus, MaxVer/MaxHeld per run (see tlc_runs), all reachable states",
+                         "random_histories": n_rand, "layout_histories": n_lay, "ops_per_history": "8..22 + closing renders", "tlc_behaviours": len(behs), "cols": "4..26", "rows": "1..8"}
     for tr in (traces[0], traces[-1]):
         fr = next(e for e in tr["ev"] if e["t"] == "render")
         chk.sample({"driver": tr["driver"], "desc": tr["desc"], "sizes": tr["sizes"], "ops": tr["ops"][:8],
